@@ -129,8 +129,10 @@ func (m *model) remove(route string) (string, []xstate.Violation, error) {
 		if !m.isTargetRef(r) {
 			return false
 		}
-		if parts := strings.Split(r, "/"); len(parts) > 3 && parts[1] == "remotes" {
-			return configured[parts[2]]
+		if strings.HasPrefix(r, "refs/remotes/") {
+			// refs/remotes/<remote>/<namespace>/<id>, where the remote's name may hold slashes
+			name := strings.TrimSuffix(strings.TrimPrefix(r, "refs/remotes/"), "/"+m.ns()+"/"+string(m.target))
+			return configured[name]
 		}
 		return true
 	}
@@ -524,11 +526,11 @@ func (m *model) wipe() (viol []xstate.Violation, tags []string, err error) {
 		refs, _ := repo.ListRefs("refs/")
 		var localLeft, trackingLeft []string
 		for _, r := range refs {
-			parts := strings.Split(r, "/")
 			switch {
 			case strings.HasPrefix(r, "refs/bugs/"), strings.HasPrefix(r, "refs/identities/"):
 				localLeft = append(localLeft, r)
-			case len(parts) >= 5 && parts[1] == "remotes" && (parts[3] == "bugs" || parts[3] == "identities"):
+			case strings.HasPrefix(r, "refs/remotes/") && (strings.Contains(r, "/bugs/") || strings.Contains(r, "/identities/")):
+				// refs/remotes/<remote>/{bugs,identities}/<id>; the remote's name may hold slashes
 				trackingLeft = append(trackingLeft, r)
 			}
 		}
